@@ -610,6 +610,53 @@ func C20(p *ir.Program, r *report.R) {
 		r.Check("K5", "evm/forwarded-gas/sites", "-", nG >= 4 && nR == nG, fmt.Sprintf("%d gas functions compute a forwarded amount, %d opcodes forward evm.callGasTemp", nG, nR))
 	}
 
+	// ---- the code hash of a frame is the hash of ITS code -------------------------------------------------------------
+	// The JUMPDEST analysis is cached by contract.CodeHash and shared by all frames: a frame whose hash
+	// names other code than it runs validates jumps against the wrong bitmap (out of range, or a PUSH
+	// operand taken for a JUMPDEST). Every SetCallCode takes hash and code from the same address.
+	{
+		n := 0
+		for _, f := range p.Funcs {
+			if f.Pkg == nil || ir.RelPkg(f.Pkg.Pkg) != "vm/evm" || f.Blocks == nil || strings.HasSuffix(p.Pos(f.Pos()), "_test.go") {
+				continue
+			}
+			for _, call := range ir.Calls(f, "evm.Contract.SetCallCode") {
+				h, cd := Arg(call, 2), Arg(call, 3)
+				hm := regexp.MustCompile(`GetCodeHash\([^,]*,(.*)\)$`).FindStringSubmatch(h)
+				cm := regexp.MustCompile(`GetCode\([^,]*,(.*)\)$`).FindStringSubmatch(cd)
+				if hm == nil || cm == nil {
+					continue // hash and code handed in by the caller (create: hash of the init code)
+				}
+				n++
+				r.Check("K5", "evm/code-hash-of-own-code/"+ir.FuncName(f), p.InstrPos(call.(ssa.Instruction)), hm[1] == cm[1], "GetCodeHash and GetCode are asked for the same address: "+hm[1]+" / "+cm[1])
+			}
+		}
+		r.Check("K5", "evm/code-hash-of-own-code/sites", "-", n >= 4, fmt.Sprintf("%d frames take hash and code from the state", n))
+	}
+
+	// ---- the state owns its balances ------------------------------------------------------------------------------------
+	// The EVM hands stack integers to Add/Sub[Token]Balance and then recycles them through the interpreter's
+	// integer pool. The state object therefore stores a NEW big.Int (the sum/difference), never the caller's
+	// pointer: a stored alias is overwritten by the next PUSH, outside the journal.
+	{
+		n := 0
+		for _, m := range []string{"AddBalance", "SubBalance", "AddTokenBalance", "SubTokenBalance"} {
+			f := p.TryFunc("state", "stateObject."+m)
+			if f == nil {
+				continue
+			}
+			for _, call := range ir.CallsDeep(f, "state.stateObject.Set*Balance") {
+				n++
+				args := call.Common().Args
+				v := args[len(args)-1]
+				_, isParam := v.(*ssa.Parameter)
+				s := ir.Render(v)
+				r.Check("K4", "state.(*stateObject)."+m+"/stores-a-new-integer", p.InstrPos(call.(ssa.Instruction)), !isParam && (strings.HasPrefix(s, "big.Int.Add(&new:big.Int") || strings.HasPrefix(s, "big.Int.Sub(&new:big.Int")), "the balance stored is a freshly allocated sum/difference, never the caller's amount: "+short(s, 80))
+			}
+		}
+		r.Check("K4", "state.(*stateObject)/balance-setters/sites", "-", n >= 4, fmt.Sprintf("%d Set*Balance calls in Add/Sub[Token]Balance", n))
+	}
+
 	// ---- a frame always has a value ------------------------------------------------------------------------
 	// CALLVALUE copies contract.value into a pooled integer (big.Int.Set): a nil value panics inside the
 	// interpreter. Every frame is created with a non-nil value, except the delegate frame, whose value
